@@ -54,6 +54,8 @@ func DrawFamily(t *rapid.T, f string) GCase {
 		s = spec.SameHandle(t)
 	case "bigauto":
 		s = spec.BigAuto(t)
+	case "blowup":
+		s = spec.Blowup(t)
 	case "manysyms":
 		s = spec.ManySyms(t)
 	case "hugerule":
